@@ -183,13 +183,31 @@ func ExtractFunctionStyleCommentTags(marker string, tagNames []string, lines []s
 		tag := Tag{}
 		if name, args, err := parseTagKey(key, tagNames); err != nil {
 			return nil, err
-		} else if name != "" {
+		} else if name != "" || wantsEmptyName(key, tagNames) {
 			tag.Name, tag.Args = name, args
 			tag.Value = val
 			out[tag.Name] = append(out[tag.Name], tag)
 		}
 	}
 	return out, nil
+}
+
+// wantsEmptyName tells whether key is the key of a tag with an empty name
+// ("+=value", "+(arg)") which is among the requested tag names.  parseTagKey
+// returns "" both for such a tag and for a tag that was not asked for.
+func wantsEmptyName(key string, tagNames []string) bool {
+	if name, _, _ := strings.Cut(key, "("); name != "" {
+		return false
+	}
+	if len(tagNames) == 0 {
+		return true
+	}
+	for _, tn := range tagNames {
+		if tn == "" {
+			return true
+		}
+	}
+	return false
 }
 
 // Tag represents a single comment tag.
